@@ -1,6 +1,5 @@
 //! Handles .hgignore parsing (Mercurial)
 
-use std::fs::File;
 use std::io::BufRead;
 use std::io::BufReader;
 use std::ops::Index;
@@ -118,6 +117,8 @@ impl Syntax {
     }
 }
 
+const MAX_INCLUDE_DEPTH: usize = 100;
+
 fn parse_hgignore(
     file_path: &Path,
     dir_path: &Path,
@@ -131,9 +132,14 @@ fn parse_hgignore(
     if being_read.contains(&canonical_path) {
         return Err(format!("{} includes itself", file_path.to_string_lossy()));
     }
+    // (includes are followed by recursion: a chain of thousands of files is refused, not crashed on)
+    if being_read.len() >= MAX_INCLUDE_DEPTH {
+        return Err(format!("{}: includes are nested too deeply", file_path.to_string_lossy()));
+    }
     being_read.push(canonical_path);
 
-    if let Ok(file) = File::open(file_path) {
+    // (only a regular file is read: an include may name a pipe or a device, which never ends)
+    if let Ok(file) = crate::util::open_regular_file(file_path) {
         let mut syntax = Syntax::Regexp;
 
         let reader = BufReader::new(file);
